@@ -55,6 +55,7 @@ type PinSpec struct {
 	Suffix  string   `json:"suffix,omitempty"`
 	Update  int      `json:"update,omitempty"` // +1
 	Ref     int      `json:"ref,omitempty"`    // +1
+	Same    bool     `json:"same,omitempty"`   // submit again, unchanged, the pin last submitted for this CID
 }
 
 type Step struct {
@@ -92,6 +93,12 @@ func genPin(r *simkit.Rng, ncids, npeers int) *PinSpec {
 		p.ExpMs = int64(r.Range(1, 100000)) * 1000
 	case 2:
 		p.ExpMs = int64(r.Range(1, 100000))*1000 + int64(r.Range(1, 999))
+	}
+	if p.ExpMs > 0 && r.Chance(0.35) {
+		// a date that passes while the plan runs, or has passed when the pin is
+		// submitted: the log and every replay of it store the pin all the same
+		// (expiry is acted upon elsewhere, by unpinning)
+		p.ExpMs = int64(r.Range(1, 120)) * 1000
 	}
 	p.Suffix = []string{"", "", " ünï", " long name with spaces"}[r.Intn(4)]
 	if r.Chance(0.15) {
@@ -145,6 +152,10 @@ func (H) Generate(prop, tier string, seed uint64) *simkit.Plan {
 	storm := -1
 	if r.Chance(0.3) {
 		storm = r.Intn(nsteps)
+	}
+	again := -1
+	if r.Chance(0.3) {
+		again = r.Intn(nsteps)
 	}
 	down := map[int]string{} // peer -> "killed" | "stopped"
 	parted := false
@@ -219,6 +230,9 @@ func (H) Generate(prop, tier string, seed uint64) *simkit.Plan {
 				st.Op = "pin"
 				st.Peer = r.Intn(n)
 				st.Pin = genPin(r, ncids, n)
+				if r.Chance(0.1) {
+					st.Pin.Same = true
+				}
 			case 1:
 				st.Op = "unpin"
 				st.Peer = r.Intn(n)
@@ -231,6 +245,16 @@ func (H) Generate(prop, tier string, seed uint64) *simkit.Plan {
 			}
 		}
 		p.AddStep(st)
+		// directed: pin, unpin through the leader, then the very same pin again at
+		// some peer while the unpin is still spreading
+		if again == i {
+			c := r.Intn(ncids)
+			pp := genPin(r, ncids, n)
+			pp.Cid = c
+			p.AddStep(Step{Op: "pin", Peer: -1, Pin: pp})
+			p.AddStep(Step{Op: "unpin", Peer: -1, DelayMs: r.Range(0, 2*hb), Pin: &PinSpec{Cid: c, RMin: -1, RMax: -1}})
+			p.AddStep(Step{Op: "pin", Peer: r.Intn(n), DelayMs: r.Pick(3, 2, 1) * r.Range(0, hb/4+1), Pin: &PinSpec{Cid: c, Same: true, RMin: -1, RMax: -1}})
+		}
 		// directed: a peer is shut down while clients keep writing through it
 		// (writes arrive before, during and after the Shutdown call); then its
 		// offline state is read and it is started again
@@ -449,6 +473,7 @@ func (s *consSvc) RmPeer(ctx context.Context, in peer.ID, out *struct{}) error {
 // ------------------------------------------------------------------ world
 
 type inc struct {
+	forced    bool // its Shutdown never returned and Raft was stopped directly
 	peer, gen int
 	host      host.Host
 	dir       string
@@ -475,6 +500,7 @@ type opRec struct {
 }
 
 type world struct {
+	lastPin   map[int]*api.Pin // per CID index: the pin last submitted
 	stormPeer int
 	stormDone chan struct{}
 	ambiguous bool // the committed sequence could not be reconstructed unambiguously: states are not judged against it
@@ -586,6 +612,23 @@ func (w *world) leader() int {
 }
 
 func (w *world) mkPin(s *PinSpec) *api.Pin {
+	if s.Same {
+		if old := w.lastPin[s.Cid%len(w.cids)]; old != nil {
+			cp := *old
+			w.run.Probe("identical_pin_submitted_again")
+			return &cp
+		}
+	}
+	p := w.mkPinNew(s)
+	if w.lastPin == nil {
+		w.lastPin = map[int]*api.Pin{}
+	}
+	cp := *p
+	w.lastPin[s.Cid%len(w.cids)] = &cp
+	return p
+}
+
+func (w *world) mkPinNew(s *PinSpec) *api.Pin {
 	w.nonce++
 	c := w.cids[s.Cid%len(w.cids)]
 	p := api.PinCid(c)
@@ -964,12 +1007,12 @@ func (w *world) kill(pi int) {
 // for ever (seen after leadership changes during a partition), and then Shutdown
 // never returns while the Raft timers keep the simulated clock running. That is
 // recorded (probe) and the Raft instance is stopped directly so that the run ends.
-func (w *world) shutdownBounded(x *inc) {
+func (w *world) shutdownBounded(x *inc) bool {
 	done := make(chan struct{})
 	go func() { x.cons.Shutdown(context.Background()); close(done) }()
 	select {
 	case <-done:
-		return
+		return true
 	case <-time.After(2 * time.Minute):
 	}
 	w.run.Probe("final_shutdown_stuck_behind_a_commit")
@@ -988,6 +1031,14 @@ func (w *world) shutdownBounded(x *inc) {
 		case <-time.After(time.Minute):
 		}
 	}
+	// and release the log store's file lock, or a successor on the same folder
+	// would wait for it in a real system call
+	bdb := rw.Elem().FieldByName("boltdb")
+	bdb = reflect.NewAt(bdb.Type(), unsafe.Pointer(bdb.UnsafeAddr())).Elem()
+	if c, ok := bdb.Interface().(interface{ Close() error }); ok && !bdb.IsNil() {
+		c.Close()
+	}
+	return false
 }
 
 func (w *world) stop(pi int) {
@@ -1002,7 +1053,10 @@ func (w *world) stopNoWait(pi int) {
 	}
 	w.run.Fault("stop")
 	w.run.Ev(nd.store.who, "stop", "")
-	nd.cons.Shutdown(context.Background())
+	if !w.shutdownBounded(nd) {
+		// stopped by force: no shutdown snapshot was taken, nothing to read offline
+		nd.forced = true
+	}
 	nd.alive = false
 	nd.graceful = true
 }
@@ -1038,7 +1092,7 @@ func (w *world) restart(pi int) {
 // offline reads the last snapshot of a stopped peer with OfflineState.
 func (w *world) offline(pi int) {
 	nd := w.cur[pi]
-	if nd.alive || !nd.graceful {
+	if nd.alive || !nd.graceful || nd.forced {
 		return
 	}
 	st, err := raft.OfflineState(nd.cfg, dssync.MutexWrap(ds.NewMapDatastore()))
@@ -1534,13 +1588,13 @@ func (w *world) judgeHistory() {
 					continue
 				}
 				for _, t := range nd.store.tokens() {
-					if t.Put && !t.Restore && t.Nonce == o.Nonce && t.Seq < o.ReturnSeq {
+					if t.Put && !t.Restore && t.Nonce == o.Nonce && t.Seq > o.InvokeSeq && t.Seq < o.ReturnSeq {
 						seen = true
 					}
 				}
 			}
 			if !seen {
-				w.run.Violate("C01/acknowledged_before_applied", "", "LogPin %s returned nil before any replica had applied it", o.Nonce)
+				w.run.Violate("C01/acknowledged_before_applied", "", "LogPin %s returned nil but no replica applied it between its invocation and its return", o.Nonce)
 			}
 		} else {
 			ackedUnpins[o.Cid]++
